@@ -350,7 +350,7 @@ def parts(tier):
                          items=lambda: [{"runs": 2500, "seed": seed * 100 + i, "corpus": "seeded" if i % 2 == 0 else "empty",
                                          "timeout": 240} for i in range(16)])]
     return fuzz + [HypPart(name="texts", check=check, strategy=_case,
-                    examples=110 if quick else 4000, seconds=42 if quick else 800),
+                    examples=110 if quick else 4000, seconds=42 if quick else 600),
             HypPart(name="whitelist", check=check_whitelist, strategy=_wl_case,
                     examples=30 if quick else 500, seconds=25 if quick else 400)]
 
